@@ -12,7 +12,8 @@ import re
 from mc.common import Result, h64
 from mc import fp
 
-from pypika_tortoise import CustomFunction, Field, Table
+from pypika_tortoise import AliasedQuery, CustomFunction, Field, Table
+from pypika_tortoise import analytics as AN
 from pypika_tortoise import functions as FN
 from pypika_tortoise.terms import Case, Function, Interval
 
@@ -106,6 +107,27 @@ STMT_EMBED = {
     "subquery": lambda Q, iv: Q.from_(Q.from_(Table("t")).select((Table("t").d + iv).as_("x"))).select("x"),
     "set": lambda Q, iv: Q.update(Table("t")).set("d", Table("t").d + iv),
     "insert": lambda Q, iv: Q.into(Table("t")).insert(1, Function("NOW") + iv),
+    # every further clause that can hold an expression
+    "conflict_update": lambda Q, iv: Q.into(Table("t")).insert(1, 2).on_conflict("id").do_update("d", Table("t").d + iv),
+    "conflict_update_where": lambda Q, iv: Q.into(Table("t")).insert(1, 2).on_conflict("id").do_update("d", 5).where(Table("t").d > Function("NOW") - iv),
+    "insert_select": lambda Q, iv: Q.into(Table("t")).columns("d").from_(Table("u")).select(Table("u").d + iv),
+    "having": lambda Q, iv: Q.from_(Table("t")).select("a").groupby("a").having(FN.Max(Table("t").d) > Function("NOW") - iv),
+    "groupby": lambda Q, iv: Q.from_(Table("t")).select("a").groupby(Table("t").d + iv),
+    "orderby": lambda Q, iv: Q.from_(Table("t")).select("a").orderby(Table("t").d + iv),
+    "join_on": lambda Q, iv: Q.from_(Table("t")).join(Table("u")).on(Table("t").d == Table("u").d + iv).select("a"),
+    "join_sub": lambda Q, iv: (lambda s: Q.from_(Table("t")).join(s).on(Table("t").d == s.x).select("a"))(
+        Q.from_(Table("u")).select((Table("u").d + iv).as_("x")).as_("sj")),
+    "in_sub": lambda Q, iv: Q.from_(Table("t")).select("a").where(Table("t").d.isin(Q.from_(Table("u")).select(Table("u").d + iv))),
+    "cte": lambda Q, iv: Q.with_(Q.from_(Table("u")).select((Table("u").d + iv).as_("x")), "c1").from_(AliasedQuery("c1")).select("x"),
+    "setop_right": lambda Q, iv: Q.from_(Table("t")).select("d").union(Q.from_(Table("u")).select(Table("u").d + iv)),
+    "setop_orderby": lambda Q, iv: Q.from_(Table("t")).select("d").union(Q.from_(Table("u")).select("d")).orderby(Field("d") + iv),
+    "delete_where": lambda Q, iv: Q.from_(Table("t")).delete().where(Table("t").d < Function("NOW") - iv),
+    "update_where": lambda Q, iv: Q.update(Table("t")).set("a", 1).where(Table("t").d < Function("NOW") - iv),
+    "update_join": lambda Q, iv: Q.update(Table("t")).join(Table("u")).on(Table("t").id == Table("u").id).set(Table("t").d, Table("u").d + iv),
+    "case_in_set": lambda Q, iv: Q.update(Table("t")).set("d", Case().when(Table("t").a == 1, Table("t").d + iv).else_(Table("t").d)),
+    "window_order": lambda Q, iv: Q.from_(Table("t")).select(AN.Rank().over(Table("t").a).orderby(Table("t").d + iv)),
+    "agg_filter": lambda Q, iv: Q.from_(Table("t")).select(FN.Count("*").filter(Table("t").d > Function("NOW") - iv)),
+    "create_as": lambda Q, iv: Q.create_table("n").as_select(Q.from_(Table("t")).select(Table("t").d + iv)),
 }
 EMBED_IVS = [dict(days=1, hours=2, dialect="MYSQL"), dict(hours=36, dialect="POSTGRESQL"), dict(days=3, dialect="ORACLE"), dict(days=1), dict(days=10, minutes=5), dict(hours=36), dict(years=1, months=2), dict(seconds=1, microseconds=5),
              dict(days=-3), dict(weeks=2), dict(quarters=1), dict(days=1, hours=2, minutes=3, seconds=4)]
@@ -203,8 +225,13 @@ def run_embed(case, res):
             Q = fp.QCLS[name]
             texts = []
             # every way of rendering a statement built through the dialect's query class
-            for mode in (lambda o: o.get_sql(Q.SQL_CONTEXT), lambda o: str(o), lambda o: o.get_sql(), lambda o: o.get_parameterized_sql()[0],
-                         lambda o: fp.render_param(o, Q.SQL_CONTEXT)[0]):
+            if pos == "stmt:conflict_update_where" and name == "mysql":
+                continue  # ON DUPLICATE KEY UPDATE has no WHERE: the clause is not part of a MySQL statement
+            modes = (lambda o: o.get_sql(Q.SQL_CONTEXT), lambda o: str(o), lambda o: o.get_sql(), lambda o: o.get_parameterized_sql()[0],
+                     lambda o: fp.render_param(o, Q.SQL_CONTEXT)[0])
+            if pos.startswith("stmt:setop") or pos == "stmt:create_as":
+                modes = (modes[0], modes[1], modes[4])  # set operations and CREATE TABLE builders have no argument-less get_sql() / get_parameterized_sql()
+            for mode in modes:
                 try:
                     texts.append(mode(STMT_EMBED[pos[5:]](Q, Interval(**kw))))
                 except Exception as e:
@@ -226,7 +253,7 @@ def run_embed(case, res):
         n_want = 2 if pos == "between" else 1
         reads = [ref_read(l, form) for l in lits]
         if len(lits) != n_want or any(r != exp for r in reads):
-            res.violate("C18|embedded|%s|%s" % (form, pos.split(":")[0] if pos.startswith("stmt") else (pos.rsplit(":", 1)[0] if pos.startswith("zoo:") else pos)),
+            res.violate("C18|embedded|%s|%s" % (form, pos if pos.startswith("stmt") else (pos.rsplit(":", 1)[0] if pos.startswith("zoo:") else pos)),
                         "an interval inside a larger expression / statement is not rendered in the target dialect's form with the requested components",
                         context=name, position=pos, components=kw, rendered=text, literals=lits, read_back=reads, expected=exp)
 
